@@ -39,6 +39,11 @@ def gen_probe_project(rng, binp, tries=40, opts=None):
             proj.FORCE_FALLBACK = False
         if p.get("namespaces") is not None and rng.chance(1, 2):
             pass
+        # one long interpolation per project (more than 26 parts: nested tuples in the view back-end)
+        if o.get("long_key", True):
+            n = rng.pick([27, 29, 31, 40, 51, 53, 55, 60, 79])
+            for (ns, l), tree in p["files"].items():
+                tree["o"].append(["longkey", f"[{l}]" + gen.print_src(gen.gen_long_src(rng, n))])
         # formatters need typed values: strip them from the probe sources
         q = proj.harness_req(p)
         q["operands"] = sorted(set(q["operands"]) | {f"u:{n}" for n in range(0, 13)} | {"u:21", "u:100", "i:-1", "f:1.5"})
